@@ -253,6 +253,15 @@ theorem wOpsS_nreach : NReach (run wInitS wOpsS) [] := by
     r5.step' .clearWakes trivial (by intro k h; cases h) rfl (by decide +kernel)
   exact r6.step' (.recvEof true) trivial (by intro k h; cases h) rfl (by decide +kernel)
 
+/-- a server state with a request waiting to be accepted -/
+theorem wOpsS1_nreach : NReach (run wInitS [.recvHeaders cxReq]) [] :=
+  (NReach.init wInitS_init2 (.inl rfl)).step' (.recvHeaders cxReq) (by show _ = none; decide) (by intro k h; cases h) rfl
+    (by decide +kernel)
+
+set_option maxRecDepth 8000 in
+theorem wOpsS1_facts : ErrOK (run wInitS [.recvHeaders cxReq]) ∧ (run wInitS [.recvHeaders cxReq]).nextIncoming.2 = some 0 :=
+  ⟨by unfold ErrOK; decide +kernel, by decide +kernel⟩
+
 set_option maxRecDepth 8000 in
 theorem wOpsS_facts : ErrOK (run wInitS wOpsS) ∧ (run wInitS wOpsS).panicked = none := by
   refine ⟨by unfold ErrOK; decide +kernel, by decide +kernel⟩
